@@ -5,7 +5,7 @@ ID=$1; RUNS=$2; shift 2
 set -e
 R=${VP_RUN_REPO:?needs --with-repo}
 git -C "$R" apply /verif/seeded/$ID/patch.diff
-sed -i "s#/repo/src/lib.rs#$R/src/lib.rs#" sim/Cargo.toml
+sed -i "s#/repo/src/lib.rs#$R/src/lib.rs#" sim/Cargo.toml; sed -i "s#/repo/src/#$R/src/#g" miri/src/main.rs
 export CARGO_NET_OFFLINE=true
 (cd sim && cargo build --profile sim --offline 2>&1 | tail -2)
 set +e
